@@ -407,6 +407,36 @@ def compute_domains_gcc(domains: NDArray, parameters: NDArray) -> int:
     :param parameters: there are 1 + 2 * m parameters:
     the first domain value (v_0), then the m lower bounds, then the m upper bounds (capacities)
     """
+    m = (len(parameters) - 1) // 2  # number of values
+    values = np.nonzero(parameters[1 + m :])[0]  # the values (relative to v_0) with a non-null capacity
+    if len(values) == m:
+        return filter_gcc(domains, parameters)
+    # the filtering algorithm expects non-null capacities:
+    # the values with a null capacity are removed and the remaining values are renumbered
+    n = len(domains)
+    reduced_domains = np.empty((n, 2), dtype=np.int32)
+    for i in range(n):
+        reduced_domains[i, MIN] = np.searchsorted(values, domains[i, MIN] - parameters[0], side="left")
+        reduced_domains[i, MAX] = np.searchsorted(values, domains[i, MAX] - parameters[0], side="right") - 1
+        if reduced_domains[i, MIN] > reduced_domains[i, MAX]:
+            return PROP_INCONSISTENCY
+    reduced_parameters = np.zeros(1 + 2 * len(values), dtype=np.int32)
+    reduced_parameters[1 : 1 + len(values)] = parameters[1 : 1 + m][values]
+    reduced_parameters[1 + len(values) :] = parameters[1 + m :][values]
+    status = filter_gcc(reduced_domains, reduced_parameters)
+    if status != PROP_INCONSISTENCY:
+        domains[:, MIN] = parameters[0] + values[reduced_domains[:, MIN]]
+        domains[:, MAX] = parameters[0] + values[reduced_domains[:, MAX]]
+    return status
+
+
+@njit(cache=True)
+def filter_gcc(domains: NDArray, parameters: NDArray) -> int:
+    """
+    Filters the domains when all capacities are non-null.
+    :param domains: the domains of the variables
+    :param parameters: the parameters of the propagator
+    """
     n = len(domains)
     m = (len(parameters) - 1) // 2  # number of values
     bounds_nb = 2 * n + 2
